@@ -18,6 +18,10 @@ pub fn handle(req: &Value) -> Value {
                 .collect();
             json!({"r":"ok","v":entries})
         }
+        "last_braille" => {
+            let (raw, cleaned) = libmathcat::verif::verif_last_braille();
+            json!({"r":"ok","v":[raw, cleaned]})
+        }
         _ => json!({"r":"err","kind":"bad-op","msg":format!("unknown hook '{}'", which)}),
     }
 }
